@@ -436,3 +436,6 @@ MUTANTS = [
 MUTANTS += [Mutant("shared-" + m.name, m.file, m.transform, ("R-C12-11",), m.note) for m in C11.MUTANTS if m.name in ("running-keeps-old-products", "running-sheds-after-state", "checking-sheds-instead")]
 
 VARIANTS = []
+
+# a sketch of the F63/F64 repair (recording through state-selecting helpers): no rule of this property may alarm on it
+VARIANTS += [shared.REPAIR_SKETCH_F63]
